@@ -46,7 +46,7 @@ for hb in (256, 512):
            "expand for out_len = %d: RFC 5869 block chaining T(i) = HMAC(PRK, T(i-1) || info || i), counter byte, truncation of the last block, every info length" % ol,
            defs=["-DHB=%d" % hb, "-DOLEN=%d" % ol], assumes=MA, cbmc=["--unwind", "70", "--unwinding-assertions", "--object-bits", "14"], tier=t,
            bound="none on inputs (constant output length %d; info <= 4096 bytes)" % ol)
-        for ol, t in ((0, "quick"), (1, "quick"), (hb // 8, "quick"), (hb // 8 + 1, "quick"), (2 * (hb // 8) + 5, "thorough"), (3 * (hb // 8), "thorough"))
+        for ol, t in ((0, "quick"), (1, "quick"), (hb // 8, "quick"), (hb // 8 + 1, "quick"), (2 * (hb // 8), "quick"), (2 * (hb // 8) + 5, "quick"), (3 * (hb // 8), "thorough"))
     ] + [
         ob("c04.f.hkdf_sha%d.expand_toolong" % hb, "harness/hkdf.c", "hf_expand_toolong", ["crypto_kdf_hkdf_sha%d_expand" % hb], "out_len > 255*HashLen => -1/EINVAL, nothing computed", defs=["-DHB=%d" % hb], cbmc=["--unwind", "70", "--unwinding-assertions"]),
     ]
